@@ -23,7 +23,7 @@ def profiles(nmax, dmax, nmin=1):
             yield ds
 
 
-def build(macro, depths, flavour=None, handler=None, lets=(), rich=False, readers=(), hpos=None, wrap=False, init_ev=False, gated=None, failop=None, hexpr_ev=False, err_after=False, capstep=False):
+def build(macro, depths, flavour=None, handler=None, lets=(), rich=False, readers=(), hpos=None, wrap=False, init_ev=False, gated=None, failop=None, hexpr_ev=False, err_after=False, capstep=False, err_defer_cap=False):
     """lets: iterable of (branch, is_mut); readers: iterable of (reader_branch, step>=1) where the capture of
     that branch-step snapshots every visible name; rich: every step >= 1 carries a capture, an error-side
     callback and a non-closure operand (C06); failop (Option flavour, sync): how a step fails — None (`=>` and_then) | "filter"
@@ -98,6 +98,12 @@ def build(macro, depths, flavour=None, handler=None, lets=(), rich=False, reader
                 items.append(Op(op, [main], deferred=True))
                 if rich:
                     items.append(Op("->", [O("lgf(\"%d.%d.o\")" % (b, k))]))
+            elif flavour == "Res" and err_defer_cap:
+                # the step STARTS with a deferred error-side operator whose operand is a block capture (the reading one); the
+                # success-side callback follows as an instant operator
+                ecap = B("ev0(\"c.%d.%d.0\");%s move |e: i32| Err::<i32, i32>(e + 5000)" % (k, b, snap))
+                items.append(Op("<=", [ecap], deferred=True))
+                items.append(Op("=>", [O(cb)]))
             elif flavour == "Res":
                 if rich:
                     err = "Err::<i32, i32>(e + 5000)"
